@@ -115,22 +115,34 @@ class Recorder:
 def make_delegate(side, cfg, script, passkey, wrong_passkey, rec, state, delegate_wrap=None):
     from bumble.pairing import PairingDelegate
 
+    async def think():
+        # the user takes script["wait"] (virtual) seconds to answer a prompt: each side's answers are ordered
+        # independently of the peer's PDUs (an answer may come after the peer's next PDU has arrived).  The "ui"
+        # event is the ANSWER (logged when the delegate returns it to the stack), not the prompt.
+        w = script.get("wait", 0)
+        if w:
+            await asyncio.sleep(w)
+
     class Scripted(PairingDelegate):
         async def accept(self):
+            await think()
             rec.ev("ui", s=side, t="accept", b=bool(script["accept"]))
             return bool(script["accept"])
 
         async def confirm(self, auto=False):
+            await think()
             b = script["cfm"] != "no"
             rec.ev("ui", s=side, t="confirm", b=b)
             return b
 
         async def compare_numbers(self, number, digits):
             state["compared"][side] = number
+            await think()
             rec.ev("ui", s=side, t="compare", b=bool(script["cmp"]))
             return bool(script["cmp"])
 
         async def get_number(self):
+            await think()
             v = script["pkin"]
             rec.ev("ui", s=side, t="input", v=v)
             if v == 0:
